@@ -116,14 +116,19 @@ theorem run_induction (P : State → Prop) (hops : List Op) (Q : Op → Prop)
       · subst hb; exact hexec _ _ _ hP (hQ _ (by simp)) he
     · intro o ho; exact hQ o (by simp [ho])
 
-/-- the state a non-arbitrating node is in after any history keeps: a genesis block at the front of a
+/-- the state a node (arbitrating or not) is in after any history keeps: a genesis block at the front of a
     non-empty chain, the configuration, unique unspent ids and the coin supply -/
 def Good (G : Nat) (g : Block) (cfg : Cfg) (s : State) : Prop :=
   s.chain.head? = some g ∧ s.cfg = cfg ∧ Inv s G
 
-theorem good_run {G : Nat} {g : Block} {cfg : Cfg} (harb : cfg.arb = false) (s : State) (ops : List Op)
-    (h0 : Good G g cfg s) (hwf : ∀ op ∈ ops, ∀ t ∈ op.txns, WfSound t) : Good G g cfg (run s ops) := by
-  apply run_induction (Good G g cfg) ops (fun op => ∀ t ∈ op.txns, WfSound t)
+/-- what the theorems assume about the transactions an operation carries: the well-formedness verdict
+supplied for each is sound w.r.t. the duplicate-input rule (C09), and within one block distinct
+transactions have distinct hashes (collision freeness of SHA-256 on that finite set) -/
+def OpOK (op : Op) : Prop := (∀ t ∈ op.txns, WfSound t) ∧ HashInj op.txns
+
+theorem good_run {G : Nat} {g : Block} {cfg : Cfg} (s : State) (ops : List Op)
+    (h0 : Good G g cfg s) (hwf : ∀ op ∈ ops, OpOK op) : Good G g cfg (run s ops) := by
+  apply run_induction (Good G g cfg) ops OpOK
   · intro s s' hs hg
     obtain ⟨h1, h2, h3, h4⟩ := hg
     obtain ⟨a1, a2, _, a4, _⟩ := hs
@@ -136,7 +141,7 @@ theorem good_run {G : Nat} {g : Block} {cfg : Cfg} (harb : cfg.arb = false) (s :
       cases hc : s.chain with
       | nil => rw [hc] at h1; cases h1
       | cons a l => rw [hc] at h1; simpa using h1
-    · exact exec_preserves_inv (by rw [h2]; exact harb) h1 h3 hq he
+    · exact exec_preserves_inv hq.2 h1 h3 hq.1 he
   · exact h0
   · exact hwf
 
